@@ -8,11 +8,12 @@
 package c10
 
 import (
-	"strings"
-	"sync"
 	"context"
 	"crypto/sha256"
 	"fmt"
+	eth2api "github.com/attestantio/go-eth2-client/api"
+	"strings"
+	"sync"
 	"testing"
 	"time"
 
@@ -210,6 +211,7 @@ func TestC10ValidatorAPI(t *testing.T) {
 			comp, rec = newComponent(cl, me, w)
 		}
 		var err error
+		faulted, disarm := beaconFault(rt, cl.bn)
 		func() {
 			defer func() {
 				if r := recover(); r != nil {
@@ -221,6 +223,7 @@ func TestC10ValidatorAPI(t *testing.T) {
 			}()
 			err = s.call(comp)
 		}()
+		disarm()
 		if mustReject {
 			if err == nil {
 				rt.Fatalf("ADMITTED: %s accepted a submission altered by %s %s (validator %d, node share %d)", s.endpoint, alt, detail, vi, me)
@@ -229,11 +232,32 @@ func TestC10ValidatorAPI(t *testing.T) {
 				rt.Fatalf("ADMITTED: %s returned %v but subscribers were called %d times (%s %s)", s.endpoint, err, len(*rec), alt, detail)
 			}
 		}
-		vstat.Case(fmt.Sprintf("%s/%s/%s/%d", s.endpoint, alt, detail, seed), mustReject, "vc:"+s.endpoint, "alt:"+alt, cls("no_assertion(unsigned metadata)", !mustReject), cls("altered_after_valid_on_same_component", sameComponent))
+		vstat.Case(fmt.Sprintf("%s/%s/%s/%d", s.endpoint, alt, detail, seed), mustReject, "vc:"+s.endpoint, "alt:"+alt, cls("no_assertion(unsigned metadata)", !mustReject), cls("altered_after_valid_on_same_component", sameComponent), cls("altered_during_beacon_config_fault", faulted))
 		if mustReject && vstat.WantSample(s.endpoint) {
 			vstat.Sample(s.endpoint, map[string]any{"endpoint": s.endpoint, "alteration": alt, "detail": detail, "n": n, "share": me, "error": fmt.Sprint(err)})
 		}
 	})
+}
+
+// beaconFault arms, in one altered case of four, a transient fault of the beacon node's configuration endpoints
+// (spec / signing domain) for the next one or two requests: as a plain error, as the typed error an HTTP client
+// reports for a 5xx answer, or as a timeout. Whatever the node does with such a fault, it must not admit what it
+// could not verify. The returned function disarms it.
+func beaconFault(rt *rapid.T, bn *fakebn.BN) (armed bool, disarm func()) {
+	disarm = func() { bn.Fail("spec", 0); bn.Fail("domain", 0) }
+	if rapid.IntRange(0, 3).Draw(rt, "beaconFault") != 0 {
+		return false, disarm
+	}
+	n := rapid.IntRange(1, 2).Draw(rt, "faults")
+	at := rapid.SampledFrom([]string{"spec", "domain"}).Draw(rt, "faultAt")
+	ferr := []error{nil, &eth2api.Error{Method: "GET", Endpoint: "/eth/v1/config/spec", StatusCode: 503, Data: []byte("service unavailable")},
+		&eth2api.Error{Method: "GET", Endpoint: "/eth/v1/config/spec", StatusCode: 500, Data: []byte("internal error")}, fmt.Errorf("config: %w", context.DeadlineExceeded)}[rapid.IntRange(0, 3).Draw(rt, "faultKind")]
+	if ferr == nil {
+		bn.Fail(at, n)
+	} else {
+		bn.FailAs(at, n, ferr)
+	}
+	return true, disarm
 }
 
 // ---------------------------------------------------------------- peer path
@@ -479,7 +503,12 @@ func TestC10PeerPath(t *testing.T) {
 			must(err)
 		}
 		set[pub] = core.ParSignedData{SignedData: data, ShareIdx: idx}
+		faulted, disarm := beaconFault(rt, cl.bn)
 		calls, handled := run(duty, set)
+		disarm()
+		if faulted {
+			vstat.Count("peer_altered_during_beacon_config_fault", 1)
+		}
 		if mustReject && calls != 0 {
 			rt.Fatalf("ADMITTED FROM PEER: %s altered by %s %s (claimed share %d of validator %d) reached the subscribers", k.Name, alt, detail, idx, vi)
 		}
